@@ -974,4 +974,5 @@ func runC12(c *Ctx) {
 	checkSilentSkipOnlyNotExists(c, c.P.BodyOf(c.P.Func("pkg/core.getSplitAsync")), "done-splits-only.split-skip-only-not-exists")
 	checkNoRelabelAsMissing(c, "done-splits-only.no-relabel")
 	checkGenericErrorDiscipline(c, "pkg/core")
+	checkBatchDistributesAllKeys(c, "done-splits-only.batch-distributes-all")
 }
